@@ -42,6 +42,7 @@ def tree_strategy():
         "source": st.sampled_from(["relative", "relative", "absolute"]),
         # I/O block size of the writer (harness patch): files of a few KiB then span several blocks, as files over 1 MiB do by default
         "block": st.sampled_from([None, None, 1024, 4096]),
+        "cwd": st.sampled_from(["parent", "parent", "parent", "inside"]), "cwd_at": st.integers(0, 8),
     })
 
 
@@ -211,6 +212,16 @@ class C02(Check):
                         ti = [p for p, n in nodes].index(target)
                         yield {"root": root, "links": [{"at": at, "to": ti, "name": "current"}], "arcname": None, "dereference": deref, "password": None,
                                "entry": "writeall", "source": src}
+        # the working directory is a directory inside the archived tree (an empty one, a populated one, the root itself)
+        for at in (0, 1):
+            for entry in ("writeall", "shutil"):
+                i += 1
+                if env.mine(i):
+                    e = {"kind": "dir", "name": "empty", "mode": 0o750, "mtime_ns": 10 ** 18 + 900, "children": []}
+                    f = {"kind": "dir", "name": "full", "mode": 0o700, "mtime_ns": 10 ** 18 + 300, "children": [
+                        {"kind": "file", "name": "f", "data": ["hex", "31"], "mode": 0o644, "mtime_ns": 10 ** 18}]}
+                    yield {"root": {"kind": "dir", "name": "root", "mode": 0o755, "mtime_ns": 10 ** 18, "children": [e, f]}, "links": [], "arcname": None,
+                           "dereference": False, "password": None, "entry": entry, "source": "absolute", "block": None, "cwd": "inside", "cwd_at": at}
         # a file larger than the writer's real I/O block (1 MiB), with and without a password
         for pw in (None, "pw"):
             i += 1
@@ -279,6 +290,14 @@ class C02(Check):
             dest = os.path.join(work, "out")
             os.chdir(srcbase)
             src_arg = rootname if case["source"] == "relative" else root
+            if case.get("cwd") == "inside":
+                # the process stands in a directory inside the tree it archives (by absolute path): nothing about the result may change
+                # (strictly below the root: writeall() of the working directory itself leaves out the top entry by design)
+                inner = [p for p, n in nodes if n["kind"] == "dir"][1:]
+                if inner:
+                    os.chdir(os.path.join(srcbase, *inner[case.get("cwd_at", 0) % len(inner)]))
+                    out.label("cwd:inside")
+                src_arg = root
             arcname = case["arcname"]
             try:
                 if case["entry"] == "shutil":
@@ -311,7 +330,7 @@ class C02(Check):
             # where the tree lands
             if arcname is not None:
                 top = arcname
-            elif case["source"] == "relative":
+            elif case["source"] == "relative" and case.get("cwd") != "inside":
                 top = rootname
             else:
                 top = root.lstrip("/")
